@@ -15,6 +15,12 @@
 (*   intrv / bsplvn of the sorted points; floats abstracted to integers round(v * 2^12).   *)
 (*   Judged at that resolution here; out carries the exact specified outcome so that the   *)
 (*   harness can tighten the comparison of the floats to 1e-10.                            *)
+(* kind "ends": one evaluation of points within a few units in the last place (double and      *)
+(*   single precision) of the first / last breakpoint THE OBJECT HOLDS, for any breakpoint       *)
+(*   option and arbitrary binary floats.  Numbers are abstracted by an order-preserving map to   *)
+(*   integers: lo, hi and the points near them by their distance in double-precision ordinals    *)
+(*   (consecutive doubles differ by 1), everything else by "far below / between / far above".    *)
+(*   Judged: the validity mask is False exactly for the points outside [lo, hi] (MaskOf).        *)
 EXTENDS BSplineBasis, Json, IOUtils, SequencesExt, TLC
 Recs == JsonDeserialize(IOEnv.VERIF_TRACE)
 VARIABLES i, ok, why, out
@@ -120,10 +126,21 @@ EvalVerdict(r, e) ==
        IN IF pv # "" THEN pv
           ELSE IF r.obs.sorted THEN FirstBad([s \in 1..Len(r.xs) |-> SortedVerdict(r, e, s)]) ELSE ""
 
+EndsVerdict(r) ==
+  LET t == <<OfInt(r.lo), OfInt(r.hi)>> IN
+  IF r.obs.err THEN "evaluation raised an exception"
+  ELSE IF ~(r.lo < r.hi) THEN "UNREPRESENTABLE: ends record with an empty range"
+  ELSE IF Len(r.obs.mask) # Len(r.xs) THEN "result shape"
+  ELSE IF \E a \in 1..Len(r.xs) : r.obs.mask[a] # MaskOf(t, 1, OfInt(r.xs[a]))
+    THEN "mask is not False exactly outside the breakpoint range (point within a few ulp of an end breakpoint)"
+  ELSE ""
+
 Verdict(r, o) == CASE r.kind = "knots" -> KnotsVerdict(r)
+                   [] r.kind = "ends" -> EndsVerdict(r)
                    [] r.kind = "eval" -> EvalVerdict(r, o)
                    [] OTHER -> "unknown record kind"
 OutOf(r) == CASE r.kind = "knots" -> KnotsOut(r)
+              [] r.kind = "ends" -> <<>>
               [] r.kind = "eval" -> IF r.obs.err THEN <<>> ELSE EvalOut(r)
               [] OTHER -> <<>>
 
